@@ -106,3 +106,22 @@ def insert_noops(src):
                 h.body.insert(0, ast.Pass())
     ast.fix_missing_locations(tree)
     return ast.unparse(tree) + "\n"
+
+
+def flip_comparisons(src):
+    """write every single-operator order/equality comparison with its operands exchanged (a < b -> b > a, a == b -> b == a).
+    Behaviour-preserving for side-effect-free operands (all comparisons in the package are of that kind)."""
+    with warnings.catch_warnings():
+        warnings.simplefilter("ignore")
+        tree = ast.parse(src)
+    swap = {ast.Lt: ast.Gt, ast.Gt: ast.Lt, ast.LtE: ast.GtE, ast.GtE: ast.LtE, ast.Eq: ast.Eq, ast.NotEq: ast.NotEq}
+
+    class F(ast.NodeTransformer):
+        def visit_Compare(self, node):
+            self.generic_visit(node)
+            if len(node.ops) == 1 and type(node.ops[0]) in swap:
+                return ast.copy_location(ast.Compare(left=node.comparators[0], ops=[swap[type(node.ops[0])]()], comparators=[node.left]), node)
+            return node
+    tree = F().visit(tree)
+    ast.fix_missing_locations(tree)
+    return ast.unparse(tree) + "\n"
